@@ -90,6 +90,7 @@ Proof.
     all: inversion Hs; subst; cbn [works set_works upd_st set_ph]; (eapply Nat.le_trans; [apply cnt_remw_le|]); auto.
   - (* item dropped *)
     destruct (ph s); try discriminate.
+    all: try (destruct (residual s); try discriminate).
     all: destruct (find j (works s)) as [y|]; [destruct y|]; try discriminate.
     all: try (inversion Hs; subst; cbn [works set_works upd_st set_ph]; try (eapply Nat.le_trans; [apply cnt_remw_le|]); auto; fail).
     all: destruct (c_term c); try discriminate; inversion Hs; subst; cbn [works set_works upd_st set_ph]; (eapply Nat.le_trans; [apply cnt_remw_le|]); auto.
@@ -148,6 +149,7 @@ Proof.
     all: destruct (find j (works s)) as [y|]; try discriminate; destruct y, stage as [|[|?]]; try discriminate.
     all: inversion Hs; subst; cbn [ph residual set_works upd_st]; rewrite ?Eph; auto.
   - destruct (ph s) eqn:Eph; try discriminate.
+    all: try (destruct (residual s) eqn:Er; try discriminate).
     all: destruct (find j (works s)) as [y|]; [destruct y|]; try discriminate.
     all: try (inversion Hs; subst; cbn [ph residual set_works upd_st]; rewrite ?Eph in *; auto; fail).
     all: destruct (c_term c); try discriminate; inversion Hs; subst; cbn [ph residual set_works upd_st]; rewrite ?Eph; auto.
@@ -208,8 +210,8 @@ Proof.
       try (left; assumption); try (left; congruence); try (right; eexists; f_equal; f_equal; congruence); auto.
   - destruct (ph s); try discriminate; destruct (residual s) eqn:Er; try discriminate;
       destruct (find j (works s)) as [[| | | |]|]; try discriminate; destruct stage as [|[|?]]; try discriminate; inversion H; subst; cbn in Hr; auto; try (left; congruence); try (exfalso; congruence).
-  - destruct (ph s); try discriminate; destruct (find j (works s)) as [[| | | |]|]; try discriminate;
-      try (inversion H; subst; cbn in Hr; auto; fail); destruct (c_term c); try discriminate; inversion H; subst; cbn in Hr; auto.
+  - destruct (ph s); try discriminate; try (destruct (residual s) eqn:Er; try discriminate); destruct (find j (works s)) as [[| | | |]|]; try discriminate;
+      try (inversion H; subst; cbn in Hr; auto; try (left; congruence); fail); destruct (c_term c); try discriminate; inversion H; subst; cbn in Hr; auto; try (left; congruence).
   - destruct (ph s); try discriminate. destruct (c_term c), r; try discriminate;
       repeat match type of H with (match ?b with _ => _ end) = _ => destruct b eqn:?; try discriminate end; inversion H; subst; cbn in Hr; auto;
       try (left; congruence); try (exfalso; congruence).
@@ -434,9 +436,11 @@ Proof.
       destruct (find j (works s)) as [[| | | |]|]; try discriminate; destruct stage as [|[|?]]; try discriminate; injection Hs as <-;
       (apply (H_rem s _ j); [exact HI|reflexivity|reflexivity|reflexivity|cbn; congruence]).
   - (* item dropped *)
-    destruct (ph s) eqn:Eph; try discriminate; destruct (find j (works s)) as [[| | | |]|]; try discriminate;
-      try (injection Hs as <-; first [exact HI|apply (H_rem s _ j); [exact HI|reflexivity|reflexivity|reflexivity|cbn; congruence]]);
-      destruct (c_term c); try discriminate; injection Hs as <-; apply (H_rem s _ j); [exact HI|reflexivity|reflexivity|reflexivity|cbn; congruence].
+    destruct (ph s) eqn:Eph; try discriminate.
+    all: try (destruct (residual s) eqn:Er; try discriminate).
+    all: destruct (find j (works s)) as [[| | | |]|]; try discriminate.
+    all: try (injection Hs as <-; first [exact HI|apply (H_rem s _ j); [exact HI|reflexivity|reflexivity|reflexivity|cbn; congruence]]; fail).
+    all: destruct (c_term c); try discriminate; injection Hs as <-; apply (H_rem s _ j); first [exact HI|reflexivity|cbn; congruence].
   - (* result *)
     destruct (ph s) eqn:Eph; try discriminate. destruct (c_term c), r; try discriminate;
       repeat match type of Hs with (match ?b with _ => _ end) = _ => destruct b; try discriminate end; injection Hs as <-;
@@ -497,9 +501,11 @@ Proof.
   - destruct (ph s) eqn:Eph; try discriminate; destruct (residual s) eqn:Er; try discriminate;
       destruct (find j (works s)) as [[| | | |]|]; try discriminate; destruct stage as [|[|?]]; try discriminate; injection H as <-;
       split; cbn; rewrite ?Eph, ?Er; auto; try discriminate.
-  - destruct (ph s) eqn:Eph; try discriminate; destruct (find j (works s)) as [[| | | |]|]; try discriminate;
-      try (injection H as <-; split; cbn; rewrite ?Eph; auto; discriminate);
-      destruct (c_term c); try discriminate; injection H as <-; split; cbn; rewrite ?Eph; auto; discriminate.
+  - destruct (ph s) eqn:Eph; try discriminate.
+    all: try (destruct (residual s) eqn:Er; try discriminate).
+    all: destruct (find j (works s)) as [[| | | |]|]; try discriminate.
+    all: try (injection H as <-; split; cbn; rewrite ?Eph, ?Er; auto; try discriminate; try (intros _; right; discriminate); fail).
+    all: destruct (c_term c); try discriminate; injection H as <-; split; cbn; rewrite ?Eph, ?Er; auto; try discriminate; try (intros _; right; discriminate).
   - destruct (ph s) eqn:Eph; try discriminate. destruct (c_term c), r; try discriminate;
       repeat match type of H with (match ?b with _ => _ end) = _ => destruct b eqn:?; try discriminate end; injection H as <-; split; cbn; try exact F2; try discriminate; auto;
       try (match goal with E: residual s = _ |- _ => rewrite E end; exact F2).
